@@ -1,10 +1,22 @@
 /* drv_visit.c — visitor domain (C17).  Same script and observation format as
- * ocaml/drv_visit.ml:  "<tree in jvtext> <schedule>", schedule = "-" or comma-separated
- * ints returned by the callback for the 1st, 2nd, … call (0 = CONTINUE afterwards).
- * One step per call: "<path> <flags> <parent> <key|index> <depth>", then "ret <r>".
+ * ocaml/drv_visit.ml.
+ *
+ *   line  := PROG { ";" PROG }                  traversals one after the other
+ *   PROG  := TREE SCHED { "(" K PROG ")" }      a traversal; during its K-th call (1-based), before
+ *                                               returning from it, its callback runs the PROG
+ *   TREE  := tree in jvtext | "="               "=": the very tree object of the enclosing traversal
+ *   SCHED := "-" | comma-separated ints         returned by the callback for its 1st, 2nd, … call
+ *                                               (0 = CONTINUE afterwards)
+ *
+ * Every traversal has its own user function (cb_0 … cb_15) and its own user argument.
+ * One traversal on the line: one step per call "<path> <flags> <parent> <key|index> <depth>",
+ * then "ret <r>".  Several: "T<i> <steps> | ret <r>" (or "T<i> notrun") joined by " || ", in
+ * the order of the line; every step has a sixth token, "own" when the call arrived with this
+ * traversal's argument, "arg<j>" for the argument of traversal j.  A call is recorded with
+ * the traversal whose FUNCTION was called.
  *
  * The node a call is about is identified by POINTER: before the visit the driver walks
- * the tree itself (plain container API, no visitor) and records the path of every
+ * the trees itself (plain container API, no visitor) and records the path of every
  * non-NULL node; jso and parent_jso are looked up in that table.  A NULL jso (JSON null)
  * has no identity: its path is the parent's path plus the position named by the key or
  * index the callback received.  Paths are run-length encoded ("/0^1000/1") so that
@@ -70,13 +82,13 @@ static void index_tree(struct json_object *o, long parent, size_t pos, size_t de
 
 /* print the path of entry `e` (-1/-2: not a known node), optionally extended by one more
  * component; runs of equal components are written once: "/0^1000/1".  Returns the depth. */
-static long put_path(long e, int extend, size_t last)
+static long put_path(FILE *f, long e, int extend, size_t last)
 {
 	size_t n, i, k;
-	if (e == -1) { printf("UNKNOWN"); return -1; }
-	if (e == -2) { printf("AMBIGUOUS"); return -1; }
+	if (e == -1) { fputs("UNKNOWN", f); return -1; }
+	if (e == -2) { fputs("AMBIGUOUS", f); return -1; }
 	n = (e >= 0 ? tab[e].depth : 0) + (extend ? 1 : 0);
-	if (n == 0) { putchar('/'); return 0; }
+	if (n == 0) { fputc('/', f); return 0; }
 	if (n > capcomp) { capcomp = n * 2; comp = (size_t *)realloc(comp, capcomp * sizeof *comp); }
 	k = n;
 	if (extend) comp[--k] = last;
@@ -84,24 +96,46 @@ static long put_path(long e, int extend, size_t last)
 	for (i = 0; i < n;) {
 		size_t j = i;
 		while (j < n && comp[j] == comp[i]) j++;
-		if (j - i > 1) printf("/%zu^%zu", comp[i], j - i); else printf("/%zu", comp[i]);
+		if (j - i > 1) fprintf(f, "/%zu^%zu", comp[i], j - i); else fprintf(f, "/%zu", comp[i]);
 		i = j;
 	}
 	return (long)n;
 }
 
-static struct json_object *root;
-static long long *codes;
-static size_t ncodes, ncalls;
+/* ---- the traversals of one line */
+#define MAXT 16
+struct trav {
+	struct json_object *tree;
+	int owns_tree;
+	long long *codes;
+	size_t ncodes, ncalls;
+	int parent;            /* started by the callback of this traversal … (-1: top level) */
+	size_t at;             /* … during its call number `at` */
+	int started, ret;
+	char *buf; size_t buflen; FILE *out;
+};
+static struct trav tr[MAXT];
+static int ntr;
+static json_c_visit_userfunc *cbs[MAXT];
 
-static int cb(struct json_object *jso, int flags, struct json_object *parent, const char *key,
-              size_t *idx, void *arg)
+static void start(int i)
 {
+	tr[i].started = 1;
+	tr[i].ret = json_c_visit(tr[i].tree, 0, cbs[i], (void *)&tr[i]);
+}
+
+static int cb_common(int id, struct json_object *jso, int flags, struct json_object *parent,
+                     const char *key, size_t *idx, void *arg)
+{
+	struct trav *me = &tr[id];
+	FILE *f = me->out;
 	long pe = parent ? tab_find(parent) : -3, depth;
-	if (arg != (void *)&ncalls) printf("BADARG ");
-	if (jso) depth = put_path(tab_find(jso), 0, 0);
+	size_t k;
+	int j;
+	if (ntr == 1 && arg != (void *)me) fputs("BADARG ", f);
+	if (jso) depth = put_path(f, tab_find(jso), 0, 0);
 	else if (!parent) {
-		if (root) { printf("UNKNOWN"); depth = -1; } else { putchar('/'); depth = 0; }
+		if (me->tree) { fputs("UNKNOWN", f); depth = -1; } else { fputc('/', f); depth = 0; }
 	} else {
 		/* JSON null member or element: locate it through what the callback was told */
 		size_t pos = (size_t)-1;
@@ -112,68 +146,139 @@ static int cb(struct json_object *jso, int flags, struct json_object *parent, co
 			for (e = json_object_get_object(parent)->head; e; e = e->next, i++)
 				if (strcmp((const char *)lh_entry_k(e), key) == 0) { pos = i; break; }
 		}
-		if (pos == (size_t)-1 || pe < 0) { printf("UNKNOWN"); depth = -1; }
-		else depth = put_path(pe, 1, pos);
+		if (pos == (size_t)-1 || pe < 0) { fputs("UNKNOWN", f); depth = -1; }
+		else depth = put_path(f, pe, 1, pos);
 	}
-	printf(" %d ", flags);
-	if (!parent) printf("-");
+	fprintf(f, " %d ", flags);
+	if (!parent) fputc('-', f);
 	else {
-		printf("%c@", json_object_get_type(parent) == json_type_array ? 'a'
-		              : json_object_get_type(parent) == json_type_object ? 'o' : 'X');
-		put_path(pe, 0, 0);
+		fprintf(f, "%c@", json_object_get_type(parent) == json_type_array ? 'a'
+		                  : json_object_get_type(parent) == json_type_object ? 'o' : 'X');
+		put_path(f, pe, 0, 0);
 	}
-	putchar(' ');
-	if (key && idx) printf("BOTH");
-	else if (key) { putchar('k'); puthex((const unsigned char *)key, strlen(key)); }
-	else if (idx) printf("i%zu", *idx);
-	else putchar('-');
-	printf(" %ld | ", depth);
-	ncalls++;
-	return ncalls - 1 < ncodes ? (int)codes[ncalls - 1] : 0;
+	fputc(' ', f);
+	if (key && idx) fputs("BOTH", f);
+	else if (key) {
+		size_t i, n = strlen(key);
+		fputc('k', f);
+		if (n == 0) fputc('-', f);
+		for (i = 0; i < n; i++) fprintf(f, "%02x", (unsigned char)key[i]);
+	}
+	else if (idx) fprintf(f, "i%zu", *idx);
+	else fputc('-', f);
+	fprintf(f, " %ld", depth);
+	if (ntr > 1) {
+		if (arg == (void *)me) fputs(" own", f);
+		else {
+			for (j = 0; j < ntr; j++) if (arg == (void *)&tr[j]) break;
+			if (j < ntr) fprintf(f, " arg%d", j); else fputs(" argX", f);
+		}
+	}
+	fputs(" | ", f);
+	k = ++me->ncalls;
+	/* the traversals this callback runs before it returns from its k-th call */
+	for (j = 0; j < ntr; j++)
+		if (tr[j].parent == id && tr[j].at == k && !tr[j].started) start(j);
+	return k - 1 < me->ncodes ? (int)me->codes[k - 1] : 0;
 }
 
-void run_case(char *rest)
+#define CB(n) static int cb_##n(struct json_object *a, int b, struct json_object *c, const char *d, \
+                                size_t *e, void *f) { return cb_common(n, a, b, c, d, e, f); }
+CB(0) CB(1) CB(2) CB(3) CB(4) CB(5) CB(6) CB(7) CB(8) CB(9) CB(10) CB(11) CB(12) CB(13) CB(14) CB(15)
+static json_c_visit_userfunc *cbs[MAXT] = { cb_0, cb_1, cb_2, cb_3, cb_4, cb_5, cb_6, cb_7,
+                                            cb_8, cb_9, cb_10, cb_11, cb_12, cb_13, cb_14, cb_15 };
+
+/* ---- parsing the line */
+static char **toks;
+static size_t ntoks, curtok;
+static int bad;
+
+static void parse_prog(int parent, size_t at)
 {
-	char *sp = strchr(rest, ' ');
-	const char *p;
-	int err = 0, ret;
-	size_t i;
-	if (!sp) { printf("BADLINE"); return; }
-	*sp = 0;
-	/* schedule */
-	ncodes = 0; ncalls = 0;
-	codes = (long long *)malloc((strlen(sp + 1) + 1) * sizeof *codes);
-	if (strcmp(sp + 1, "-") != 0) {
-		char *q = sp + 1;
+	int id;
+	char *t, *q;
+	if (bad || ntr >= MAXT || curtok + 1 >= ntoks) { bad = 1; return; }
+	id = ntr++;
+	memset(&tr[id], 0, sizeof tr[id]);
+	tr[id].parent = parent; tr[id].at = at;
+	t = toks[curtok++];
+	if (strcmp(t, "=") == 0) {
+		if (parent < 0) { bad = 1; return; }
+		tr[id].tree = tr[parent].tree;
+	} else {
+		const char *p = t;
+		int err = 0;
+		tr[id].tree = jv_parse(&p, &err);
+		tr[id].owns_tree = 1;
+		if (err || *p) { bad = 1; return; }
+	}
+	q = toks[curtok++];
+	tr[id].codes = (long long *)malloc((strlen(q) + 1) * sizeof(long long));
+	if (strcmp(q, "-") != 0) {
 		for (;;) {
 			char *e;
-			codes[ncodes++] = strtoll(q, &e, 10);
+			tr[id].codes[tr[id].ncodes++] = strtoll(q, &e, 10);
 			if (*e != ',') break;
 			q = e + 1;
 		}
 	}
-	xa_reset();
-	p = rest;
-	root = jv_parse(&p, &err);
-	if (err || *p) { printf("BADTREE"); json_object_put(root); free(codes); return; }
-	ntab = 0;
-	index_tree(root, -1, 0, 0);
-	order = (size_t *)malloc((ntab ? ntab : 1) * sizeof *order);
-	for (i = 0; i < ntab; i++) order[i] = i;
-	qsort(order, ntab, sizeof *order, cmp_order);
-	fflush(stderr);
-	{	/* the library reports invalid codes on stderr: keep the log quiet */
-		FILE *old = stderr;
-		static FILE *devnull;
-		if (!devnull) devnull = fopen("/dev/null", "w");
-		if (devnull) stderr = devnull;
-		ret = json_c_visit(root, 0, cb, (void *)&ncalls);
-		stderr = old;
+	while (!bad && curtok < ntoks && strcmp(toks[curtok], "(") == 0) {
+		size_t k;
+		curtok++;
+		if (curtok >= ntoks) { bad = 1; return; }
+		k = (size_t)strtoull(toks[curtok++], NULL, 10);
+		parse_prog(id, k);
+		if (bad || curtok >= ntoks || strcmp(toks[curtok], ")") != 0) { bad = 1; return; }
+		curtok++;
 	}
-	printf("ret %d", ret);
-	json_object_put(root);
-	free(order);
+}
+
+void run_case(char *rest)
+{
+	size_t i, cap = 8;
+	int t;
+	char *save = NULL, *w;
+	toks = (char **)malloc(cap * sizeof *toks);
+	ntoks = curtok = 0; ntr = 0; bad = 0; ntab = 0;
+	for (w = strtok_r(rest, " ", &save); w; w = strtok_r(NULL, " ", &save)) {
+		if (ntoks == cap) { cap *= 2; toks = (char **)realloc(toks, cap * sizeof *toks); }
+		toks[ntoks++] = w;
+	}
+	xa_reset();
+	parse_prog(-1, 0);
+	while (!bad && curtok < ntoks && strcmp(toks[curtok], ";") == 0) { curtok++; parse_prog(-1, 0); }
+	if (bad || curtok != ntoks) printf("BADLINE");
+	else {
+		for (t = 0; t < ntr; t++) {
+			if (tr[t].owns_tree) index_tree(tr[t].tree, -1, 0, 0);
+			tr[t].out = open_memstream(&tr[t].buf, &tr[t].buflen);
+		}
+		order = (size_t *)malloc((ntab ? ntab : 1) * sizeof *order);
+		for (i = 0; i < ntab; i++) order[i] = i;
+		qsort(order, ntab, sizeof *order, cmp_order);
+		fflush(stderr);
+		{	/* the library reports invalid codes on stderr: keep the log quiet */
+			FILE *old = stderr;
+			static FILE *devnull;
+			if (!devnull) devnull = fopen("/dev/null", "w");
+			if (devnull) stderr = devnull;
+			for (t = 0; t < ntr; t++) if (tr[t].parent < 0) start(t);
+			stderr = old;
+		}
+		for (t = 0; t < ntr; t++) {
+			fclose(tr[t].out);
+			if (ntr > 1) printf("%sT%d ", t ? " || " : "", t);
+			if (!tr[t].started) printf("notrun");
+			else { fputs(tr[t].buf, stdout); printf("ret %d", tr[t].ret); }
+			free(tr[t].buf);
+		}
+		free(order);
+	}
+	for (t = 0; t < ntr; t++) {
+		if (tr[t].owns_tree) json_object_put(tr[t].tree);
+		free(tr[t].codes);
+	}
 	ntab = 0;
-	free(codes);
+	free(toks);
 	if (xa_live != 0) printf(" | LEAK %ld", xa_live);
 }
